@@ -430,13 +430,16 @@ example (sc : Nat) (a b : List Nat) (x y : Val) :
   refine (control_flow_preserves_invariants ScopesWF).2.2.2.2.2.1 _ _ ?_ (fun f hf => by injection hf with hf; rw [← hf]; exact hs)
   exact (control_flow_preserves_invariants ScopesWF).2.2.2.2.1 _ [] none hl (fun h hm => by cases hm) (fun o ho => by cases ho)
 
-/-- **The evaluator itself preserves `ScopesWF` on the call-free, declaration-free fragment `Calm`** — constants,
-    numbers, plain variable reads, `let v`, statement sequences, guards and `if … elif … else`, nested arbitrarily:
+/-- **The evaluator itself preserves `ScopesWF` on the call-free, declaration-free fragment `Calm`** — straight-line
+    code with `if`: constants, numbers, plain variable reads, arithmetic (`+ - * / //`, unary `+ -`), plain
+    assignments `v := e`, `let v`, statement sequences, guards and `if … elif … else`, nested arbitrarily:
     for every fuel, every tree of the fragment, every existing scope `sc` and EVERY outcome (errors, fuel, malformed
     children included), `eval f sc n` leaves a well-formed scope table in which `sc` still exists.  One induction over
     the fuel of the mutual `eval`; the `if` goes through `control_flow_preserves_invariants` (`ifChain`) and
-    `block_scope_under_current` (`newChild`), the leaves through `writes_preserve_wf` and read lemmas.  Not in the
-    fragment (open): assignments `:=`, loops, `try`, calls, declarations, access paths. -/
+    `block_scope_under_current` (`newChild`), the assignment through `evalAssign` / `identSet` = `setValue`
+    (`writes_preserve_wf`), arithmetic through `numOp` / `numVal`, reads through scope-only read lemmas.  Not in the
+    fragment (open): comparison / boolean / string operators, list and map literals, destructuring and path
+    assignments, loops, `try`, calls, declarations, access paths. -/
 theorem eval_preserves_wf_calm (f : Nat) (n : Ecal.Parse.Node) (sc : Nat) (st st' : St) (r : Except Sig Val)
     (hn : Calm n) (h : ScopesWF st) (hsc : sc < st.scopes.size) (hr : runM (eval f sc n) st = (r, st')) :
     ScopesWF st' ∧ sc < st'.scopes.size := by
@@ -468,6 +471,23 @@ theorem exIfLet_calm : Calm exIfLet := by
 
 example (st' : St) (r : Except Sig Val) (hr : runM (eval 50 1 exIfLet) exSt = (r, st')) : ScopesWF st' ∧ 1 < st'.scopes.size :=
   eval_preserves_wf_calm 50 exIfLet 1 exSt st' r exIfLet_calm exSt_wf (by decide) hr
+
+/-- non-vacuity: `a := a + 1` is in the fragment -/
+def exAssign : Ecal.Parse.Node :=
+  nd ":=" [] [some (nd "identifier" [97] []), some (nd "plus" [] [some (nd "identifier" [97] []), some (nd "number" [49] [])])]
+theorem exAssign_calm : Calm exAssign := by
+  have hvar : Calm (nd "identifier" [97] []) := Calm.var _ _ [97] rfl rfl rfl (by decide)
+  have hplus : Calm (nd "plus" [] [some (nd "identifier" [97] []), some (nd "number" [49] [])]) := by
+    refine Calm.arith _ (Or.inl rfl) ?_
+    intro c hc
+    simp [nd, Ecal.Parse.Node.children] at hc
+    rcases hc with e | e
+    · rw [e]; exact hvar
+    · rw [e]; exact Calm.number _ rfl
+  exact Calm.assign exAssign _ _ _ [97] rfl rfl rfl rfl rfl rfl (by decide) hplus
+
+example (st' : St) (r : Except Sig Val) (hr : runM (eval 50 1 exAssign) exSt = (r, st')) : ScopesWF st' ∧ 1 < st'.scopes.size :=
+  eval_preserves_wf_calm 50 exAssign 1 exSt st' r exAssign_calm exSt_wf (by decide) hr
 
 /-- Variable writes keep the table well-formed for EVERY name and EVERY outcome: `setValue` (plain names write one
     variable, dotted names only the heap) and `setLocalValue` (the `let` node); together with the initial table, new
